@@ -7,8 +7,11 @@ import (
 	"encoding/hex"
 	"fmt"
 	"math"
+	"os"
+	"path/filepath"
 	"strconv"
 	"strings"
+	"time"
 
 	"github.com/LindsayBradford/crem/internal/pkg/dataset"
 	"github.com/LindsayBradford/crem/internal/pkg/dataset/csv"
@@ -101,7 +104,32 @@ func c20oracle(what string, extra J) {
 }
 
 // one text through the real loader
-func c20case(text string, class string) {
+// how the text reaches the loader: nil = ParseCsvTextIntoTable (the engine's route); otherwise the file route
+// (DataSet.Load of a meta-file naming one table file that holds the text)
+var c20fileDir string
+
+func c20loadViaFile(text string) (ds *csv.DataSet, table dataset.Table, dsErr, tableErr error) {
+	tablePath := filepath.Join(c20fileDir, "t.csv")
+	if err := os.WriteFile(tablePath, []byte(text), 0o666); err != nil {
+		panic(err)
+	}
+	// same modification time for every version of the file (a file replaced within the same clock second)
+	os.Chtimes(tablePath, c20fileTime, c20fileTime)
+	ds = csv.NewDataSet("c20")
+	ds.Load(filepath.Join(c20fileDir, "meta.csv"))
+	dsErr = ds.Errors()
+	table, tableErr = ds.Table("t")
+	return
+}
+
+var c20fileTime = time.Unix(1700000000, 0)
+
+func c20case(text string, class string) { c20caseVia(text, class, false) }
+
+func c20caseVia(text string, class string, viaFile bool) {
+	if viaFile {
+		class = "file:" + class
+	}
 	c20stats["text_"+class]++
 	records, readErr := c20reader(text)
 	cj := J{"kind": "case", "class": class, "text": c20hex(text)}
@@ -131,6 +159,10 @@ func c20case(text string, class string) {
 	var table dataset.Table
 	var tableErr, dsErr error
 	panicked, what := protect(func() {
+		if viaFile {
+			ds, table, dsErr, tableErr = c20loadViaFile(text)
+			return
+		}
 		ds = csv.NewDataSet("c20")
 		ds.ParseCsvTextIntoTable("t", text)
 		dsErr = ds.Errors()
@@ -417,6 +449,32 @@ func c20malformed(rng *prng) string {
 	return sb.String()
 }
 
+// a text of the same length that differs from t in one character of its data (after the header line): a digit becomes
+// another digit, a letter another letter
+func c20sameLengthVariant(t string, rng *prng) (string, bool) {
+	nl := strings.IndexByte(t, '\n')
+	if nl < 0 || nl+1 >= len(t) {
+		return "", false
+	}
+	b := []byte(t)
+	var cand []int
+	for i := nl + 1; i < len(b); i++ {
+		if (b[i] >= '0' && b[i] <= '9') || (b[i] >= 'a' && b[i] <= 'z') {
+			cand = append(cand, i)
+		}
+	}
+	if len(cand) == 0 {
+		return "", false
+	}
+	i := cand[rng.intn(len(cand))]
+	if b[i] >= '0' && b[i] <= '9' {
+		b[i] = '0' + (b[i]-'0'+1+byte(rng.intn(8)))%10
+	} else {
+		b[i] = 'a' + (b[i]-'a'+1+byte(rng.intn(24)))%26
+	}
+	return string(b), true
+}
+
 func runC20(args []string) {
 	tier := "quick"
 	if len(args) > 0 {
@@ -466,6 +524,35 @@ func runC20(args []string) {
 	}
 	for i := 0; i < nMalformed; i++ {
 		c20case(c20malformed(rng), "malformed_random")
+	}
+	// the file route: the same kinds of text loaded through DataSet.Load from ONE table file that is replaced again and
+	// again (same path, same modification time); every other text is a same-length variant of its predecessor (one
+	// character of the data changed), which is what an edited input file looks like
+	{
+		dir, err := os.MkdirTemp("", "c20files")
+		if err != nil {
+			panic(err)
+		}
+		defer os.RemoveAll(dir)
+		c20fileDir = dir
+		if err := os.WriteFile(filepath.Join(dir, "meta.csv"), []byte("TableName,FilePath\nt,t.csv\n"), 0o666); err != nil {
+			panic(err)
+		}
+		nFile := 120
+		if tier == "thorough" {
+			nFile = 2000
+		}
+		for _, t := range fixed {
+			c20caseVia(t, "fixed_degenerate", true)
+		}
+		for i := 0; i < nFile; i++ {
+			t, class := c20structured(rng)
+			c20caseVia(t, class, true)
+			if v, ok := c20sameLengthVariant(t, rng); ok {
+				c20caseVia(v, "replaced_same_length", true)
+				c20stats["file_replaced_same_length"]++
+			}
+		}
 	}
 	// the refutation witness of Properties/C20.v, replayed on the implementation
 	{
